@@ -19,7 +19,7 @@ pub open spec fn a_host_end(s: Seq<u8>, i: int) -> int { a_host_end_at(s, a_host
 pub open spec fn a_has_port(s: Seq<u8>, i: int) -> bool { a_host_end(s, i) < s.len() && s[a_host_end(s, i)] == 58 }
 
 /// Structural consequences of the authority grammar (type invariant of authorities):
-/// '[' only opens the host; nothing but ':' port follows the closing ']'; one '@' at most.
+/// '[' only opens the host and is closed; nothing but ':' port follows the closing ']'; one '@' at most.
 pub open spec fn auth_shape(s: Seq<u8>, i: int) -> bool {
     let at = a_at(s, i);
     let h = a_host_start(s, i);
@@ -28,7 +28,7 @@ pub open spec fn auth_shape(s: Seq<u8>, i: int) -> bool {
     &&& (forall|j: int| at < j < s.len() ==> #[trigger] s[j] != 64)
     &&& (h < s.len() && s[h] == 91 ==> {
             let rb = first_of(s, h, C_RB);
-            rb + 1 >= s.len() || s[rb + 1] == 58
+            rb < s.len() && (rb + 1 >= s.len() || s[rb + 1] == 58)
         })
 }
 
@@ -58,6 +58,42 @@ pub open spec fn rfc_auth(a: Seq<u8>) -> Auth3 {
         user_info: if a_has_ui(a, 0) { Some((0int, a_at(a, 0))) } else { None },
         host: (a_host_start(a, 0), a_host_end(a, 0)),
         port: if a_has_port(a, 0) { Some((a_host_end(a, 0) + 1, a.len() as int)) } else { None },
+    }
+}
+} // verus!
+verus! {
+/// positions of an authority that starts at offset i of a text ending with it, in terms of the
+/// stand-alone authority text
+pub proof fn lemma_auth_offset(s: Seq<u8>, i: int)
+    requires 0 <= i <= s.len(),
+    ensures ({
+        let t = s.subrange(i, s.len() as int);
+        &&& a_has_ui(s, i) == a_has_ui(t, 0)
+        &&& a_at(s, i) == a_at(t, 0) + i
+        &&& a_host_start(s, i) == a_host_start(t, 0) + i
+        &&& a_host_end(s, i) == a_host_end(t, 0) + i
+        &&& a_has_port(s, i) == a_has_port(t, 0)
+        &&& auth_shape(s, i) == auth_shape(t, 0)
+    }),
+{
+    let t = s.subrange(i, s.len() as int);
+    lemma_first_of_suffix(s, i, i, C_AT);
+    lemma_first_of_bounds(s, i, C_AT);
+    let h = a_host_start(s, i);
+    lemma_first_of_suffix(s, i, h, C_RB);
+    lemma_first_of_suffix(s, i, h, C_COLON);
+    lemma_first_of_bounds(s, h, C_RB);
+    lemma_first_of_bounds(s, h, C_COLON);
+    assert(forall|j: int| 0 <= j < t.len() ==> #[trigger] t[j] == s[j + i]);
+    if auth_shape(s, i) {
+        assert forall|j: int| 0 <= j < t.len() && #[trigger] t[j] == 91 implies j == a_host_start(t, 0) by { assert(s[j + i] == 91); }
+        assert forall|j: int| a_at(t, 0) < j < t.len() implies #[trigger] t[j] != 64 by { assert(s[j + i] != 64); }
+        assert(auth_shape(t, 0));
+    }
+    if auth_shape(t, 0) {
+        assert forall|j: int| i <= j < s.len() && #[trigger] s[j] == 91 implies j == h by { assert(t[j - i] == 91); }
+        assert forall|j: int| a_at(s, i) < j < s.len() implies #[trigger] s[j] != 64 by { assert(t[j - i] != 64); }
+        assert(auth_shape(s, i));
     }
 }
 } // verus!
